@@ -1,0 +1,117 @@
+//go:build verif
+
+// Contracts for the command (main.go), read by /verif/govc (comment-only; not part of any build).
+// Syntax: see the header of govc/contract.go.
+//
+// Property C18: peg exits with status zero only when it has written a complete generated parser to the requested
+// destination (named file, <grammar>.go by default, or standard output for -output -, reading standard input when no file
+// is given). A missing or unreadable grammar, a grammar syntax error, or an unwritable destination produces a non-zero
+// exit and a message, with or without -strict.
+//
+// Model of the process: exit status 0 = normal return from main; log.Fatal = status 1 and panic = status 2 (both end the
+// path, nothing is claimed about them). Hence "status zero only when ..." is the postcondition of main at its normal returns.
+//
+// Ghost state (declared by the unit loader, Unit.ExtraCells):
+//   written bool        a complete generated parser has been written (set only by (*tree.Tree).Compile returning nil)
+//   dest    io.Writer   the writer that parser went to
+//   failed  bool        one of the steps named by the property has reported an error: opening the grammar (os.Open), opening
+//                       the destination (os.OpenFile), reading the grammar (io.ReadAll), parsing it (Peg.Parse: syntax error),
+//                       generating and writing the parser (Compile). Set by exactly these five operations when they return
+//                       a non-nil error; false when the process starts.
+// The command line is a set of uninterpreted constants: flagNArg(), flagArg(i) (positional arguments), optOutput() (value of
+// -output, "" when absent), optVersion() (-version given). flag.Parse stores them into the flag variables.
+
+package main
+
+//@ specfunc flagNArg() int
+//@ specfunc flagArg(i int) Str
+//@ specfunc optOutput() Str
+//@ specfunc optVersion() bool
+//@ -- the name a *os.File was opened with (f.Name()); immutable
+//@ specfunc fileName(f *os.File) Str
+
+//@ -- the flag variables are set by the package initialiser (flag.Bool / flag.String never return nil)
+//@ pred flagsOK() = inline != nil && switchFlag != nil && printFlag != nil && syntax != nil && noast != nil
+//@      && strict != nil && outputFile != nil && showVersion != nil
+
+//@ -- an input file is named on the command line
+//@ pred namedIn() = flagNArg() > 0 && flagArg(0) != "-"
+//@ -- effective output name given the value o of -output: o itself, else <grammar>.go, else "" (standard output)
+//@ pred effName(o string) = ite(o != "", o, ite(namedIn(), flagArg(0) + ".go", ""))
+//@ pred toStdout(e string) = e == "" || e == "-"
+//@ -- w is the destination requested by the effective output name e
+//@ pred isDest(w *os.File, e string) = ite(toStdout(e), w == os.Stdout, w != os.Stdout && fileName(w) == e)
+
+//@ func main
+//@   requires flagsOK()
+//@   requires !optVersion()
+//@   requires !failed
+//@   ensures written
+//@   ensures !failed
+//@   ensures isDest(dest, effName(optOutput()))
+//@   dead 1 : the -version return (prints the version, writes no parser) is excluded by the precondition
+//@   modifies var written, dest, failed
+//@   modifies Ptr.Bool, Ptr.Str
+//@   modifies Elems.Int at r where false
+//@   modifies Tree.Strict at r where false
+//@   modifies Peg.Tree, Peg.Buffer, Peg.buffer, Peg.rules, Peg.parse, Peg.reset, Peg.Pretty, Peg.disableMemoize, Peg.tokens at r where false
+
+//@ func getIO
+//@   requires flagsOK()
+//@   ensures err == nil ==> ite(namedIn(), in != os.Stdin && fileName(in) == flagArg(0), in == os.Stdin)
+//@   ensures err == nil ==> isDest(out, effName(old(*outputFile)))
+//@   ensures err == nil ==> *outputFile == effName(old(*outputFile))
+//@   ensures err == nil ==> closeAll != nil
+//@   ensures err != nil ==> in == nil && out == nil && closeAll == nil
+//@   ensures err == nil ==> failed == old(failed)
+//@   modifies var failed
+//@   modifies Ptr.Str at r where r == outputFile
+//@   modifies Elems.Int at r where false
+
+//@ closure getIO.closeAll
+//@   loop 0 invariant true
+//@ -- the function value that parse receives from getIO is the literal verified as getIO.closeAll
+//@ closure parse.closeAll = getIO.closeAll
+
+//@ -- contract of parse's function-typed parameter (arg0 = the parser, arg1 = the output stream); the literal that main
+//@ -- passes (main.$arg0) is verified against it
+//@ closure parse.compile
+//@   requires flagsOK() && arg0 != nil && arg0.Tree != nil
+//@   ensures result == nil ==> written && dest == arg1
+//@   ensures result == nil ==> failed == old(failed)
+//@   modifies var written, dest, failed
+//@   modifies Tree.Strict at r where r == arg0.Tree
+//@   modifies Peg.tokens at r where r == arg0
+
+//@ func parse
+//@   requires flagsOK()
+//@   ensures result == nil ==> written && isDest(dest, effName(old(*outputFile)))
+//@   ensures result == nil ==> failed == old(failed)
+//@   modifies var written, dest, failed
+//@   modifies Ptr.Str at r where r == outputFile
+//@   modifies Elems.Int at r where false
+//@   modifies Tree.Strict at r where false
+//@   modifies Peg.Tree, Peg.Buffer, Peg.buffer, Peg.rules, Peg.parse, Peg.reset, Peg.Pretty, Peg.disableMemoize, Peg.tokens at r where false
+
+//@ -- ASSUMED (bodies in the generated front end peg.peg.go are not verified here): they work on the parser object only and
+//@ -- do not touch the ghost state; Parse returns an arbitrary error.
+//@ func Pretty
+//@   trusted
+//@ func Size
+//@   trusted
+//@ func Peg.Init
+//@   trusted
+//@   modifies Peg.Buffer, Peg.buffer, Peg.rules, Peg.parse, Peg.reset, Peg.Pretty, Peg.disableMemoize, Peg.tokens at r where r == p
+//@ func Peg.Parse
+//@   trusted
+//@   ensures result != nil ==> failed
+//@   ensures result == nil ==> failed == old(failed)
+//@   modifies var failed
+//@   modifies Peg.buffer, Peg.tokens at r where r == p
+//@ func Peg.Execute
+//@   trusted
+//@   modifies Peg.buffer, Peg.tokens at r where r == p
+//@ func Peg.PrintSyntaxTree
+//@   trusted
+//@ func tokens.Print
+//@   trusted
